@@ -660,6 +660,9 @@ class Folder:
                 if v is None:
                     return 0 if fn.endswith('unwrap_or_default') else self.ev(t[3][1])
                 return v
+        if fn.startswith('log::') or (t[3] and any('log::Level' in fmt(a) for a in t[3][:2])):
+            # `log` macros: level tests are taken as "disabled"; the diagnostic branch has no effect on driver state
+            return 0
         if fn in ('core::cmp::min', 'core::cmp::Ord::min'):
             return min(self.ev(a) for a in t[3])
         if fn in ('core::cmp::max', 'core::cmp::Ord::max'):
